@@ -5,7 +5,7 @@ Import ListNotations.
 Require Import Nib.C08.Model Nib.C08.Spec Nib.C08.Proofs Nib.C08.Ref.
 Local Open Scope Z_scope.
 
-Notation call F p k v g i := (evm_call Z sample_body sample_transfer F p k v g i 0).
+Notation call F p k v g i := (evm_call Z sample_body sample_after_mint sample_transfer F p k v g i 0).
 
 (** the reference facts satisfy every condition the theorems ask for *)
 Example reference_facts_ok :
@@ -13,8 +13,8 @@ Example reference_facts_ok :
   query_guards_ok reference_facts = true /\ f_direct_ro reference_facts = true.
 Proof. vm_compute. repeat split; reflexivity. Qed.
 
-Example sample_body_queries_readonly : query_bodies_readonly Z sample_body.
-Proof. intros m args st lim H. unfold sample_body. rewrite H. reflexivity. Qed.
+Example sample_body_queries_readonly : query_bodies_readonly Z sample_body (fun _ _ st _ => BOk st 0).
+Proof. intros m args st lim H. unfold sample_body. rewrite H. split; reflexivity. Qed.
 
 (** before fix: 7d2b3b1 (1): calldata shorter than a selector panics in requiredGas *)
 Lemma no_panic_refuted_short_calldata :
@@ -36,15 +36,28 @@ Proof. exists PFunToken, (KCall false), 0, 1000000, (sendToEvm_call [97; 0; 98; 
 (** before fix: 170e86a: the Oracle precompile lets the gas meter's panic escape *)
 Lemma no_panic_refuted_oracle_oog :
   exists g inp, input_wf inp = true /\
-    r_out (evm_call Z greedy_body sample_transfer (with_oracle_oog reference_facts false) POracle KTop 0 g inp 0) = Panic.
+    r_out (evm_call Z greedy_body sample_after_mint sample_transfer (with_oracle_oog reference_facts false) POracle KTop 0 g inp 0) = Panic.
 Proof. exists 2000, oracle_query_call. vm_compute. split; reflexivity. Qed.
+
+(** before the supply-overflow fix: sendToBank whose mint lifts the bank supply to 2^256 panics in
+    sdkmath.Int.Add under bank.MintCoins *)
+Lemma no_panic_refuted_supply_overflow :
+  exists inp, input_wf inp = true /\
+    r_out (evm_call Z whale_body sample_after_mint sample_transfer (with_guards reference_facts no_supply_guard)
+             PFunToken KTop 0 3000000 inp 0) = Panic.
+Proof. exists (sendToBank_call (2 ^ 255)). vm_compute. split; reflexivity. Qed.
+
+Example supply_overflow_fails_closed_when_guarded :
+  r_out (evm_call Z whale_body sample_after_mint sample_transfer reference_facts PFunToken KTop 0 3000000
+           (sendToBank_call (2 ^ 255)) 0) = Err.
+Proof. vm_compute. reflexivity. Qed.
 
 (** after the fixes the same four calls fail closed *)
 Example fixed_calls_fail_closed :
   r_out (call reference_facts PFunToken KTop 0 1000000 empty_calldata) = Err /\
   r_out (call reference_facts PFunToken KTop 0 1000000 (bankMsgSend_call [] 1)) = Err /\
   r_out (call reference_facts PFunToken (KCall false) 0 1000000 (sendToEvm_call [97; 0; 98; 99] 1)) = Err /\
-  r_out (evm_call Z greedy_body sample_transfer reference_facts POracle KTop 0 2000 oracle_query_call 0) = OutOfGas.
+  r_out (evm_call Z greedy_body sample_after_mint sample_transfer reference_facts POracle KTop 0 2000 oracle_query_call 0) = OutOfGas.
 Proof. vm_compute. repeat split; reflexivity. Qed.
 
 (** OPEN FINDING: the geth fork's EVM.Call hands readOnly = false to the precompile even below a
@@ -103,6 +116,6 @@ Example nonvacuous_gas_below_required :
 Proof. vm_compute. repeat split; reflexivity. Qed.
 
 Example nonvacuous_oog_in_body_reverts :
-  let r := evm_call Z greedy_body sample_transfer reference_facts PFunToken KTop 1000000000000 50000 (bankMsgSend_call unibi 5) 0 in
+  let r := evm_call Z greedy_body sample_after_mint sample_transfer reference_facts PFunToken KTop 1000000000000 50000 (bankMsgSend_call unibi 5) 0 in
   r_out r = OutOfGas /\ r_left r = 0 /\ r_st r = 0.
 Proof. vm_compute. repeat split; reflexivity. Qed.
